@@ -94,6 +94,7 @@ func (d *dagStoreImpl) UpdateSpec(name string, spec []byte) error {
 		_ = os.Remove(tmp)
 		return err
 	}
+	verifPoint("save.written", loc)
 	if err := os.Rename(tmp, loc); err != nil {
 		_ = os.Remove(tmp)
 		return err
